@@ -40,8 +40,23 @@ func (p *BinaryProtocol) Skip(wireType proto.WireType, useNative bool) (err erro
 	return
 }
 
-// fast skip all elements in LIST/MAP
+// SkipAllElementsOf fast skips all the elements of the LIST/MAP field described by desc
+// and returns their count. Packed elements are skipped by the wire type of the element kind.
+func (p *BinaryProtocol) SkipAllElementsOf(desc *proto.TypeDescriptor) (size int, err error) {
+	elemWireType := proto.BytesType
+	if desc.IsList() {
+		elemWireType = desc.Elem().WireType()
+	}
+	return p.skipAllElements(desc.BaseId(), desc.IsPacked(), elemWireType)
+}
+
+// SkipAllElements fast skips all elements in LIST/MAP; the elements of a packed list are taken to be varints.
+// Use SkipAllElementsOf when the descriptor is at hand (packed fixed32/fixed64/float/double lists).
 func (p *BinaryProtocol) SkipAllElements(fieldNumber proto.FieldNumber, ispacked bool) (size int, err error) {
+	return p.skipAllElements(fieldNumber, ispacked, proto.VarintType)
+}
+
+func (p *BinaryProtocol) skipAllElements(fieldNumber proto.FieldNumber, ispacked bool, elemWireType proto.WireType) (size int, err error) {
 	size = 0
 	if ispacked {
 		if _, _, _, err := p.ConsumeTag(); err != nil {
@@ -51,12 +66,19 @@ func (p *BinaryProtocol) SkipAllElements(fieldNumber proto.FieldNumber, ispacked
 		if err != nil {
 			return -1, err
 		}
-		start := p.Read
-		for p.Read < start+int(bytelen) {
-			if _, err := p.ReadVarint(); err != nil {
+		end := p.Read + bytelen
+		if bytelen < 0 || end > len(p.Buf) {
+			return -1, errDecodeField
+		}
+		for p.Read < end {
+			if err := p.Skip(elemWireType, false); err != nil {
 				return -1, err
 			}
 			size++
+		}
+		if p.Read != end {
+			// the last element crosses the end of the packed payload
+			return -1, errDecodeField
 		}
 	} else {
 		for p.Read < len(p.Buf) {
